@@ -759,8 +759,31 @@ func genHist(r *rand.Rand, na, nk int) []op {
 			if r.Intn(3) == 0 {
 				g.snap()
 			}
-		case x < 91:
+		case x < 89:
 			g.add(op{O: "clear"})
+		case x < 91:
+			// an account that the cache first saw while it was absent is brought back by a Reset and emptied again:
+			// drain, snapshot, forget the cache, touch, reset to an older snapshot, drain, snapshot
+			g.add(op{O: "bal", A: a, V: "0"})
+			for kk := 0; kk < nk; kk++ {
+				g.add(op{O: "del", A: a, K: kk, H: true})
+			}
+			g.snap()
+			if r.Intn(3) > 0 {
+				g.add(op{O: "clear"})
+			} else {
+				g.add(op{O: "fromsnap", I: g.nsnap - 1})
+			}
+			g.add(op{O: "touch", A: a})
+			g.add(op{O: "reset", I: r.Intn(g.nsnap)})
+			if r.Intn(2) == 0 {
+				g.add(op{O: "live", A: a, H: true})
+			}
+			g.add(op{O: "bal", A: a, V: "0", H: r.Intn(2) == 0})
+			for kk := 0; kk < nk; kk++ {
+				g.add(op{O: "del", A: a, K: kk, H: true})
+			}
+			g.snap()
 		case x < 94:
 			if g.nsnap == 0 {
 				g.snap()
@@ -950,6 +973,10 @@ func fixedCases() []hcase {
 		{ac, ks, []op{{O: "bal", A: 0, V: "1"}, {O: "set", A: 1, K: 0, V: "0909"}, {O: "clear"}, {O: "live", A: 0}, {O: "live", A: 1}, {O: "snap"}, {O: "flush", I: 0},
 			{O: "reload", I: 0}, {O: "live", A: 1}, {O: "set", A: 1, K: 0, V: "", H: true}, {O: "snap"}, {O: "load", I: 0}, {O: "fromsnap", I: 2}, {O: "peek", A: 1}, {O: "snap"}, {O: "obs", I: 0}, {O: "obs", I: 1}},
 			[]op{{O: "set", A: 1, K: 0, V: "0909"}, {O: "snap"}, {O: "bal", A: 0, V: "1"}, {O: "snap"}}},
+		// an account first cached while absent, brought back by Reset, emptied again: it must leave the trie
+		{ac, ks, []op{{O: "bal", A: 0, V: "5"}, {O: "snap"}, {O: "bal", A: 0, V: "0", H: true}, {O: "snap"}, {O: "clear"}, {O: "touch", A: 0}, {O: "reset", I: 0},
+			{O: "bal", A: 0, V: "0", H: true}, {O: "snap"}, {O: "obs", I: 2}, {O: "reset", I: 0}, {O: "set", A: 0, K: 0, V: "01", H: true}, {O: "bal", A: 0, V: "0", H: true}, {O: "del", A: 0, K: 0, H: true}, {O: "snap"}},
+			[]op{{O: "snap"}}},
 		// contract flag and state flags take part in emptiness
 		{ac, ks, []op{{O: "block", A: 0, B: true}, {O: "snap"}, {O: "block", A: 0, B: false, H: true}, {O: "snap"}, {O: "init", A: 1, W: 1}, {O: "disable", A: 1, B: true, H: true}, {O: "snap"},
 			{O: "disable", A: 2, B: true}, {O: "snap"}, {O: "reset", I: 1}, {O: "live", A: 1, H: true}, {O: "init", A: 1, W: 0, H: true}, {O: "snap"}, {O: "obs", I: 2}, {O: "ro", I: 2}},
